@@ -177,7 +177,7 @@ func TestTCP(t *testing.T) {
 		return
 	}
 	r.Rule("TCP: command sequences from per-protocol grammars (ftp, smtp incl. DATA/BDAT, redis, memcached, telnet, http keep-alive, elasticsearch, eos, ethereum, docker, cwmp, ldap) plus telnet / ftp / memcached / smtp dialogs with 2-, 3- and 4-byte UTF-8 characters in their text fields, delivered through the real server on the in-memory listener as a single write (pipelined), lock-step, k random cuts (half of them inside a multi-byte character when there is one) and 1-byte dribble; oracle = expected event list computed from the generated command list (reference) AND equality with the single-write event list (metamorphic); non-trivial = >=2 commands and (a cut or >=2 requests in one write); distinct by wire bytes + delivery")
-	r.Rapid(t, "TestTCP", r.Pick(560, 3200), func(rt *rapid.T) {
+	r.Rapid(t, "TestTCP", r.Pick(560, 2000), func(rt *rapid.T) {
 		service := rapid.SampledFrom(tcpKinds).Draw(rt, "service")
 		d, hot := genTCPHot(rt, service)
 		mode := rapid.SampledFrom([]string{"single", "lockstep", "cuts", "cuts", "dribble"}).Draw(rt, "mode")
@@ -244,7 +244,7 @@ func TestEveryCut(t *testing.T) {
 		return
 	}
 	r.Rule("every single cut point of the byte stream (exhaustive per generated dialog, streams <= 500 bytes)")
-	r.Rapid(t, "TestEveryCut", r.Pick(14, 150), func(rt *rapid.T) {
+	r.Rapid(t, "TestEveryCut", r.Pick(14, 90), func(rt *rapid.T) {
 		service := rapid.SampledFrom(tcpKinds).Draw(rt, "service")
 		d := genTCP(rt, service)
 		n := len(d.Stream())
@@ -358,7 +358,7 @@ func TestUDP(t *testing.T) {
 		return
 	}
 	r.Rule("UDP: datagrams for dns, tftp, snmp, memcached (8-byte header, 1..3 command lines) and counterstrike, each handed to the server's dispatcher as the socket listener does (wrapped in the timeout connection), from a fresh source address; oracle = the datagram's decoded fields appear in exactly the expected events; non-trivial = datagram that decodes")
-	r.Rapid(t, "TestUDP", r.Pick(1000, 6000), func(rt *rapid.T) {
+	r.Rapid(t, "TestUDP", r.Pick(1000, 4000), func(rt *rapid.T) {
 		service := rapid.SampledFrom(svc.UDPServices).Draw(rt, "service")
 		var d svc.Dialog
 		if (service == "snmp" || service == "dns") && rapid.Bool().Draw(rt, "big") {
@@ -524,7 +524,7 @@ func TestUDPSocketBurst(t *testing.T) {
 		return
 	}
 	r.Rule("UDP through the REAL socket listener on loopback: bursts of 2..24 distinct grammar datagrams sent back to back from distinct source ports; oracle = each datagram's own decoded fields in the events of its source port (a datagram whose events never show is re-measured twice)")
-	r.Rapid(t, "TestUDPSocketBurst", r.Pick(60, 600), func(rt *rapid.T) {
+	r.Rapid(t, "TestUDPSocketBurst", r.Pick(60, 400), func(rt *rapid.T) {
 		service := rapid.SampledFrom(svc.UDPServices).Draw(rt, "service")
 		c := sockCase{Service: service}
 		n := rapid.IntRange(2, 24).Draw(rt, "burst")
